@@ -23,11 +23,14 @@ ASSUMPTIONS = ["true distance = 1/2 max(min distortion X->Y, min distortion Y->X
                "(20 s budget per pair; timeouts are counted and make the run inconclusive above 2%)",
                "maps built by the heuristic are captured by wrapping construct_mapping from the harness (no repository change)",
                "substituted draws are injected by patching numpy.random.permutation / choice for the duration of one call"]
-REQUIRED_NOTES = ["ring-cases", "ring-cases with exact oracle"]
+REQUIRED_NOTES = ["ring-cases", "ring-cases with exact oracle", "adversary-cases"]
 TECHNIQUE = "runtime monitoring: postcondition monitor on gromov_hausdorff with an exact backtracking oracle, captured-witness recomputation, and RNG-as-scheduler substitution"
 
 MSO = [np.array([.5, 1]), np.array([0, 0]), np.array([1, 1]), np.array([0, 3]), np.array([2, 0]), np.array([-1, -1])]
 CAPTURED = []
+
+
+ORIG_CONSTRUCT = [None]
 
 
 def setup(ctx):
@@ -36,6 +39,7 @@ def setup(ctx):
     GH = importlib.import_module("persim.gromov_hausdorff")   # (persim.gromov_hausdorff the *attribute* is the function)
     gh = GH.gromov_hausdorff
     orig = GH.construct_mapping
+    ORIG_CONSTRUCT[0] = orig
 
     def spy(DX, DY, pi):
         imgs, dis = orig(DX, DY, pi)
@@ -152,9 +156,119 @@ def judge_witnesses(ctx, lb, ub, cap, DXo, DYo, nX, nY):
             ctx.note("independent local search beat the heuristic's maps")
     else:
         ctx.note("only one direction captured")
+    # the upper bound is a claim about BOTH directions: each must be witnessed by a sampled map, or by the inverse of a sampled
+    # bijection (which has the same distortion); a bound below what the sampled maps witness corresponds to no pair of maps
+    best = {0: None, 1: None}
+    for d in (0, 1):
+        cands = [real for real, f in dirs[d]]
+        cands += [real for real, f in dirs[1 - d] if nX == nY and len(set(f)) == len(f)]
+        best[d] = min(cands) if cands else None
+    if best[0] is not None and best[1] is not None:
+        ctx.check("upper bound is witnessed by sampled maps in both directions", 2 * ub >= max(best[0], best[1]), upper=ub, witnessed=[best[0], best[1]],
+                  directions_sampled=[len(dirs[0]), len(dirs[1])])
+
+
+class Scripted:
+    """plays a prepared list of (permutation, first image) draws, then falls back to a seeded generator: a hostile scheduler for the
+    sampling heuristic (the only randomness it consumes is one permutation and one choice per sampled map)"""
+
+    def __init__(self, script, seed):
+        self.perms = [np.array(p) for p, _ in script]
+        self.firsts = [int(y) for _, y in script]
+        self.rng = np.random.default_rng(seed)
+        self.mode = "scripted"
+
+    def permutation(self, n):
+        if self.perms and len(self.perms[0]) == n:
+            return self.perms.pop(0)
+        self.perms = []
+        return self.rng.permutation(n)
+
+    def choice(self, n):
+        if self.firsts:
+            return self.firsts.pop(0) % n
+        return int(self.rng.integers(0, n))
+
+
+def adversary_case(ctx, k, rng):
+    """same-size pairs whose two directions have different minimum distortions, with a SCRIPTED random stream: the first sampled map
+    X->Y is a good non-injective one, every later one a worse bijection. Whatever the heuristic concludes from such a stream, the
+    upper bound must still be at least the true distance (exact oracle)."""
+    import time as _time
+    n = int(rng.integers(5, 9))
+    sparse = [lambda: OM.path(n), lambda: OM.random_tree(rng, n), lambda: OM.caterpillar(max(3, n - 2), [1, 1]), lambda: OM.cycle(n)]
+    dense = [lambda: OM.star(n), lambda: OM.complete(n), lambda: OM.gnp_connected(rng, n, 0.6), lambda: OM.complete_bipartite(2, n - 2),
+             lambda: OM.lollipop(n - 2, 2)]
+    A = sparse[int(rng.integers(0, len(sparse)))](); B = dense[int(rng.integers(0, len(dense)))]()
+    if rng.random() < 0.6:
+        # two graphs of the same kind and size (trees, sparse random graphs): greedy maps between them are often bijections
+        mk = (lambda: OM.random_tree(rng, n)) if rng.random() < 0.5 else (lambda: OM.gnp_connected(rng, n, float(rng.choice([0.3, 0.45]))))
+        A, B = mk(), mk()
+    if len(A) != len(B):
+        B = OM.star(len(A))
+    if rng.random() < 0.5:
+        A, B = B, A
+    A, _ = OM.relabel(rng, A); B, _ = OM.relabel(rng, B)
+    DX, DY = OM.bfs_metric(A), OM.bfs_metric(B)
+    ctx.begin(k, "adversary", {"A": A, "B": B})
+    ctx.note("adversary-cases")
+    dl = _time.monotonic() + 10.0
+    try:
+        mxy, myx = OM.min_distortion(DX, DY, dl), OM.min_distortion(DY, DX, dl)
+    except OM.OracleTimeout:
+        ctx.note("oracle_timeout")
+        return
+    true2 = max(mxy, myx)
+    if mxy > myx:           # script the direction that is searched first (X -> Y) to be the one with the smaller minimum
+        A, B, DX, DY, mxy, myx = B, A, DY, DX, myx, mxy
+        ctx.set_payload({"A": A, "B": B})
+    # candidate maps X->Y exactly as the heuristic would build them from (permutation, first image)
+    nA, nB = len(A), len(B)
+    DXa, DYa = np.array(DX), np.array(DY)
+    good, bij = None, None
+    op, oc = np.random.permutation, np.random.choice
+    for _ in range(600):
+        if good is not None and bij is not None:
+            break
+        pi, y0 = rng.permutation(nA), int(rng.integers(0, nB))
+        np.random.choice = lambda m, _y=y0: _y % m
+        try:
+            imgs, dis = ORIG_CONSTRUCT[0](DXa, DYa, pi)
+        finally:
+            np.random.choice = oc
+        injective = len(set(int(v) for v in imgs)) == nA
+        if not injective and dis < true2 and good is None:
+            good = (pi, y0, dis)
+        if injective and bij is None:
+            bij = (pi, y0, dis)
+    if good is None or bij is None:
+        ctx.note("adversary: no suitable pair of maps among 600 candidates")
+        script = []
+    else:
+        ctx.note("adversary: scripted stream built")
+        script = [(good[0], good[1])] + [(bij[0], bij[1])] * 60
+    for mso in (None, MSO[2]):
+        try:
+            out, cap = call(ctx, A, B, mso, Scripted(list(script), int(rng.integers(0, 2 ** 31))))
+        except Exception as e:
+            ctx.exception("returns (lower, upper)", e, schedule="scripted")
+            continue
+        res = judge_common(ctx, out)
+        if res is None:
+            continue
+        lb, ub = res
+        ctx.note("exact-oracle checks:adversary")
+        ctx.check("lower <= true mGH (exact oracle)", lb <= true2 / 2, lower=lb, true=true2 / 2, schedule="scripted")
+        ctx.check("true mGH <= upper (exact oracle)", true2 / 2 <= ub, upper=ub, true=true2 / 2, schedule="scripted",
+                  min_distortions=[mxy, myx], scripted=bool(script), first_map_distortion=(good[2] if good else None))
+        judge_witnesses(ctx, lb, ub, cap, DX, DY, nA, nB)
+    if mxy != myx:
+        ctx.mark_nontrivial(signature(DX), signature(DY), "adversary")
 
 
 def run_case(ctx, k, rng):
+    if k % 23 == 3:
+        return adversary_case(ctx, k, rng)
     import time as _time
     _t0 = _time.monotonic()
     r = rng.random()
@@ -326,7 +440,7 @@ def run_case(ctx, k, rng):
         if mode == "iso" or fb == "big-iso":
             ctx.check("isomorphic graphs get lower bound 0", lb == 0.0, lower=lb, schedule=sname)
         judge_witnesses(ctx, lb, ub, cap, DX, DY, len(A), len(B))
-        if true2 is not None and isinstance(s, int):
+        if true2 is not None and isinstance(s, int) and rng.random() < 0.4:
             # the distance is symmetric in its arguments; the two bounds are computed by code that treats them differently
             try:
                 out_sw, _ = call(ctx, fB, fA, mso, s)
